@@ -24,7 +24,8 @@ LEAN_MODULES = ["Proofs.C10", "Proofs.C10.Accrual", "Proofs.C10.Debt", "Proofs.C
 DRIVERS = ["driver_aave"]
 RULE = ("index paths: 1-120 bars, 27-digit indices growing by 0-3 % per bar (or exactly representable ones), 2-4 tokens; operations: supply / "
         "withdraw / borrow / repay(cash|collateral) with amounts that are fractions of the balance, the exact balance, None, and split pairs "
-        "(a, b) versus (a+b); bucket = (check, operation, model outcome, argument class, number of bars since the position was opened)")
+        "(a, b) versus (a+b); quiet bars (parts of the row, or everything but one price, repeat the previous bar), the same token supplied and borrowed, "
+        "three or four borrows of one token inside one bar with cached views read in between; bucket = (check, operation, model outcome, argument class, number of bars since the position was opened)")
 TRUSTED = ["theorems are for exact rational arithmetic; the envelope (balances <= 1e12 tokens, <= 1e4 operations) keeps the accumulated "
            "35-digit rounding below 1e-18, which this run measures on every step (exact_vs_impl_max_rel_dev)"]
 ASSUMPTIONS = ["indices are positive and non-decreasing; balances stay below 1e12 tokens",
@@ -225,15 +226,38 @@ def run_sequence(ctx: Ctx, rng, nbars, reqs, meta, exact_env):
     led = Ledger()
     bar = 0
     steps = 0
+    pending = []        # a scripted run of operations inside the current bar
+    borrows_in_bar = {}
     while bar < nbars and steps < 400:
         steps += 1
         r = rng.random()
         env_next = None
-        if r < 0.45:
+        if pending:
+            op = pending.pop(0)
+        elif r < 0.45:
             env_next = A.next_env(rng, env)
             op = {"kind": "newBar"}
+            borrows_in_bar = {}
         elif r < 0.5:
             split_merge(ctx, rng, m, b, env, actions)
+            continue
+        elif r < 0.54 and any(v.collateral for v in m._supplies.values()):
+            # three or four borrows of ONE token inside one bar, the listing / value views read in between (they fill the market's caches:
+            # the next borrow must still see the debt the previous one added), then the position is judged by the ledger as always
+            cands = [t for t in env["tokens"] if env["risk"][t]["canBorrow"]]
+            if not cands:
+                continue
+            t3 = rng.choice([t for t in cands if A.token(t) in m._supplies] or cands) if rng.random() < 0.4 else rng.choice(cands)
+            try:
+                ref = A.clone_market(m, False).get_max_borrow_amount(A.token(t3))
+            except Exception:  # noqa: BLE001
+                continue
+            if not ref.is_finite() or ref <= 0:
+                continue
+            k = rng.choice([3, 3, 4])
+            for _ in range(k):
+                pending.append({"kind": "borrow", "tok": t3, "amount": fmt((ref * A.dec_digits(rng, 0.05, 0.28, 4)).normalize())})
+                pending.append({"kind": "read", "view": rng.choice(["borrows", "borrowsValue", "totalBorrowsValue", "healthFactor", "marketBalance", "ltv"])})
             continue
         else:
             op = A.gen_op(rng, m, b, env, malformed=0.03)
@@ -276,6 +300,12 @@ def run_sequence(ctx: Ctx, rng, nbars, reqs, meta, exact_env):
                     if op.get("withColl"):
                         ct = op.get("collTok") or t
                         led.sub("sup", ct, paid * F(env["price"][t]) / F(env["price"][ct]), env["status"][ct]["liqIdx"])
+        if op["kind"] == "borrow" and outcome == "ok":
+            borrows_in_bar[t] = borrows_in_bar.get(t, 0) + 1
+            if borrows_in_bar[t] == 3:
+                ctx.count("feature:three-borrows-of-one-token-in-one-bar")
+        for ft in A.features(m, env):
+            ctx.count("feature:" + ft)
         check_ledger(ctx, m, env, led, bar, case, f"after {op}")
         if op["kind"] != "newBar":
             reqs.append(A.step_request(env_used, s0, op))
